@@ -275,3 +275,34 @@ Example ndims_ok_example :
                      OTensor {| ts_shape := [3%Z]; ts_dtype := DFloat64; ts_w := WConst KNpy 1%R (EFin 2%R) |}]
                     (WConst KPs 1%R (EFin 2%R)) FReal) = true.
 Proof. reflexivity. Qed.
+
+(* ================================================================ comparison tables regenerated from source
+   Which attributes each __eq__ compares, in which order, with which operator (==, is,
+   np.all(==), zip-all, two-sided membership), read from the AST of the code under test into
+   Gen/C20Tables.v, is -- for EVERY pair of objects of the class -- the equality of the model
+   (24 classes in C20/EqTables.v; three shown).  A tolerance (np.isclose, approx_equals) is
+   outside the translator's grammar; a dropped / added / reordered conjunct breaks a lemma. *)
+From Verif Require Import C20.EqTab C20.EqTables.
+Theorem eq_table_ProductSpace : forall (l1 : list (obj R)) w1 f1 l2 w2 f2,
+  interp_eq (fun x => match x with
+                      | ELenEq => Some (tri_of (Nat.eqb (List.length l1) (List.length l2)))
+                      | EAttrEq "weighting"%string true => Some (tri_of (w_eqb w1 w2))
+                      | EZipAllEq "spaces"%string => Some (zipt (eqt live_variants) l1 l2)
+                      | _ => same_class "ProductSpace"%string x end) eq_ProductSpace
+  = eqt live_variants (OProd l1 w1 f1) (OProd l2 w2 f2).
+Proof. exact eqtab_ProductSpace. Qed.
+Theorem eq_table_ConstWeighting : forall k (c : R) e k' c' e',
+  interp_eq (fun x => match x with
+                      | ESuper => Some (base_eq (WConst k c e) (WConst k' c' e'))
+                      | EAttrEqGetattr "const"%string => Some (tri_of (neqb c c'))
+                      | _ => None end) eq_ConstWeighting
+  = tri_of (w_eqb (WConst k c e) (WConst k' c' e')).
+Proof. exact eqtab_ConstWeighting. Qed.
+Theorem eq_table_IntervalProd : forall a b : list (ext R * ext R),
+  interp_eq (sem_intv a b) eq_IntervalProd = intv_eqt live_variants a b.
+Proof. exact eqtab_IntervalProd. Qed.
+Theorem contains_table_spaces : forall (S : obj R) (x : elem R),
+  interp_contains contains_LinearSpace S x = contains live_variants S x /\
+  interp_contains contains_TensorSpace S x = contains live_variants S x.
+Proof. exact ctab_spaces. Qed.
+Print Assumptions eq_table_ProductSpace.
